@@ -37,6 +37,8 @@ struct EpollJob {
 impl Task for EpollJob {
     #[inline(always)]
     fn run(self) {
+        #[cfg(khttp_verif)]
+        crate::verif::emit(crate::verif::Event::EpJobStart(self.handle_ptr));
         let handle = unsafe { &*(self.handle_ptr as *const Handle) };
         let stream = unsafe { &*(handle.stream_ptr) };
 
@@ -45,12 +47,20 @@ impl Task for EpollJob {
             handle_one_request(stream, &mut response, &handle.handler_config).unwrap_or(false);
 
         if keep_alive {
+            #[cfg(khttp_verif)]
+            crate::verif::emit(crate::verif::Event::EpRearm(self.handle_ptr));
             handle.in_flight.store(false, Ordering::Release);
         } else {
             unsafe {
+                #[cfg(khttp_verif)]
+                crate::verif::emit(crate::verif::Event::EpDel(self.handle_ptr));
                 let _ = epoll_ctl(handle.epfd, EPOLL_CTL_DEL, handle.fd, ptr::null_mut());
+                #[cfg(khttp_verif)]
+                crate::verif::emit(crate::verif::Event::EpStreamDrop(self.handle_ptr));
                 drop(Box::from_raw(handle.stream_ptr)); // close connection
             }
+            #[cfg(khttp_verif)]
+            crate::verif::emit(crate::verif::Event::EpClosedStore(self.handle_ptr));
             handle.closed.store(true, Ordering::Release);
         }
     }
@@ -104,37 +114,56 @@ impl Server {
                             closed: AtomicBool::new(false),
                         });
                         let handle_ptr = Box::into_raw(handle) as u64;
+                        #[cfg(khttp_verif)]
+                        crate::verif::emit(crate::verif::Event::EpAccept(handle_ptr));
+                        // fault injection: make this EPOLL_CTL_ADD fail (EBADF)
+                        #[cfg(khttp_verif)]
+                        let fd = if crate::verif::take_add_failure() { -1 } else { fd };
 
                         let mut cev = epoll_event {
                             events: (EPOLLIN | EPOLLRDHUP) as u32,
                             u64: handle_ptr,
                         };
                         if unsafe { epoll_ctl(epfd, EPOLL_CTL_ADD, fd, &mut cev) } == -1 {
+                            #[cfg(khttp_verif)]
+                            crate::verif::emit(crate::verif::Event::EpAddFailed(handle_ptr));
                             unsafe {
+                                #[cfg(khttp_verif)]
+                                crate::verif::emit(crate::verif::Event::EpFree(handle_ptr));
                                 drop(Box::from_raw(handle_ptr as *mut Handle));
                             }
                         }
                     }
                 } else {
                     let handle_ptr = token as *mut Handle;
+                    #[cfg(khttp_verif)]
+                    crate::verif::emit(crate::verif::Event::EpEvent(token));
                     let handle = unsafe { &*handle_ptr };
                     if handle.closed.load(Ordering::Acquire) {
+                        #[cfg(khttp_verif)]
+                        crate::verif::emit(crate::verif::Event::EpClosedSeen(token));
                         stale_ptrs.push(handle_ptr);
                     } else if handle
                         .in_flight
                         .compare_exchange(false, true, Ordering::Acquire, Ordering::Relaxed)
                         .is_ok()
                     {
+                        #[cfg(khttp_verif)]
+                        crate::verif::emit(crate::verif::Event::EpCasOk(token));
                         worker_pool.execute(EpollJob { handle_ptr: token });
                     }
                 }
             }
             if !stale_ptrs.is_empty() {
                 for ptr in &stale_ptrs {
+                    #[cfg(khttp_verif)]
+                    crate::verif::emit(crate::verif::Event::EpFree(*ptr as u64));
                     unsafe { drop(Box::from_raw(*ptr)) };
                 }
                 stale_ptrs.clear();
             }
+            #[cfg(khttp_verif)]
+            crate::verif::emit(crate::verif::Event::EpBatchEnd);
         }
     }
 
